@@ -136,11 +136,19 @@ def diff(d1, d2, what):
     return None
 
 
-FUNCS = (("mul", 1.1), ("div", 3.0), ("mul", -1.0), ("const", 5), ("const", 5.0), ("const", 0), ("mul", 1e-300), ("mul", 1e300), ("add", 1e-7))
+# "mulk" / "addk": the same scaling / shift written as a function with a second, defaulted parameter (`lambda v, k=1.1: v * k`, `def shift(v, amount=20.0)`):
+# still a function of the value; it is called with the value and nothing else
+FUNCS = (("mul", 1.1), ("div", 3.0), ("mul", -1.0), ("const", 5), ("const", 5.0), ("const", 0), ("mul", 1e-300), ("mul", 1e300), ("add", 1e-7),
+         ("mulk", 1.1), ("addk", 20.0))
 
 
 def mkfunc(spec, counter):
     kind, c = spec
+    if kind in ("mulk", "addk"):
+        def g(v, k=c):
+            counter[0] += 1
+            return v * k if kind == "mulk" else v + k
+        return g
 
     def f(v):
         counter[0] += 1
@@ -156,6 +164,7 @@ def mkfunc(spec, counter):
 
 def pure(spec, v):
     kind, c = spec
+    kind = {"mulk": "mul", "addk": "add"}.get(kind, kind)
     if kind == "mul":
         return float(v * c)
     if kind == "div":
